@@ -30,6 +30,17 @@ P.update({
           TECH),
 })
 
+P.update({
+  'C03': (True, 'Writer.tla, WriterLin.tla',
+          'TLC exhausts Writer.tla (program-counter machine of writeCachedDataPoints/writeForever with a storing thread, create limiting, lag, and up to 2 failing exists/create/write calls) and proves no double write, no rewrite after an error, write only for existing files, nothing silently discarded and the counters; the real writeForever() runs under the line-level deterministic scheduler against real stores, an in-memory database plugin executing a fault script (every single-fault placement, then random multi-fault scripts) with the real counters and the twisted error log, and WriterLin.tla judges every recorded trace clause by clause.',
+          'in-memory TimeSeriesDatabase plugin stands for Whisper/Ceres (not installed); log.err() counts as reported; linearization-point events logged from the cooperative cache lock; line granularity',
+          TECH),
+  'C04': (True, 'Writer.tla, WriterLin.tla',
+          'TLC proves FlushOnExit on Writer.tla with the stop (before-trigger, then running:=False) enabled in every state; on the code a third thread delivers the stop through the real shutdownModifyUpdateSpeed() and every placement reachable with <= k pre-emptions at line granularity (plus random placements) is executed for all strategies, MIN_TIMESTAMP_LAG and rate limits with/without MAX_UPDATES_PER_SECOND_ON_SHUTDOWN; WriterLin.tla flags datapoints accepted before the stop that are still cached at thread exit.',
+          'reactor double whose running flag the stop thread clears (Twisted clears it in crash() during shutdown and then joins the pool); virtual time; no backend faults here (C03)',
+          TECH),
+})
+
 PENDING_REASON = 'check not built yet in this round (planned per DESIGN.md section 5); not claimed until its TLA+ model and conformance harness exist'
 
 
